@@ -805,6 +805,23 @@ class Ref:
             if isinstance(x, RDS):
                 return self.map_measures(x, f)
             return f(x, TRUE)
+        if op == "replace":
+            # replace(s, pattern, replacement): every occurrence (the builtin itself is a symbol shared with the SQL side); a missing
+            # replacement is the empty string
+            x = self.ev(node.children[0])
+            ps = [None if (type(p_).__name__ == "ID" and p_.value == "_") else self.ev(p_) for p_ in node.params]
+            if not ps or ps[0] is None:
+                raise Unsupported("oracle: replace without pattern")
+            pat = self.to_str(ps[0][0])
+            new = self.to_str(ps[1][0]) if len(ps) > 1 and ps[1] is not None else lit("")
+            fu = self.ctx.uf("replace", z3.StringSort(), z3.StringSort(), z3.StringSort(), z3.StringSort())
+
+            def f(mv, g):
+                sv_ = self.to_str(mv[0])
+                return SV("str", z3.Or(sv_.null, pat.null, new.null), fu(sv_.val, pat.val, new.val)), "String"
+            if isinstance(x, RDS):
+                return self.map_measures(x, f)
+            return f(x, TRUE)
         if op == "nvl":
             return self.n_BinOp(type("B", (), dict(op="nvl", left=node.children[0], right=node.params[0]))())
         if op == "cast":
